@@ -188,6 +188,8 @@ val fold_right : ('a2 -> 'a1 -> 'a1) -> 'a1 -> 'a2 list -> 'a1
 
 val forallb : ('a1 -> bool) -> 'a1 list -> bool
 
+val combine : 'a1 list -> 'a2 list -> ('a1 * 'a2) list
+
 val firstn : nat -> 'a1 list -> 'a1 list
 
 val skipn : nat -> 'a1 list -> 'a1 list
@@ -576,6 +578,116 @@ val wrap_index : z -> z -> z
 
 val dealias_keeps : z -> z -> z -> z -> bool
 
+val dealias_K : z -> z -> z -> z
+
+type idx = z list
+
+val wrap1 : z -> z -> z
+
+val wrapD : z -> idx -> idx
+
+val in_band : z -> idx -> bool
+
+val subi : idx -> idx -> idx
+
+val zrange_from : z -> nat -> z list
+
+val zrange : z -> z -> z list
+
+val bandD : nat -> z -> idx list
+
+val is_zero : idx -> bool
+
+type field = idx -> car
+
+val msk : ops -> z -> field -> field
+
+val cconv2 : ops -> nat -> z -> z -> field -> field -> field
+
+val cconv3 : ops -> nat -> z -> z -> field -> field -> field -> field
+
+val nfac : ops -> nat -> z -> car
+
+val prod2 : ops -> nat -> z -> z -> field -> field -> field
+
+val prod3 : ops -> nat -> z -> z -> field -> field -> field -> field
+
+val dc : ops -> car -> car -> nat -> field
+
+val fmulp : ops -> field -> field -> field
+
+val fscal : ops -> car -> field -> field
+
+val fadd : ops -> field -> field -> field
+
+val fzero : ops -> field
+
+val fsumf : ops -> field list -> field
+
+val axes : nat -> nat list
+
+val half : ops -> car
+
+val lap : ops -> car -> car -> nat -> field
+
+val delta0 : ops -> field
+
+val conv_mc_cons :
+  ops -> (field -> field -> field) -> car -> car -> nat -> car -> field list
+  -> field list
+
+val conv_mc_noncons :
+  ops -> (field -> field -> field) -> car -> car -> nat -> car -> field list
+  -> field list
+
+val conv_sc_cons :
+  ops -> (field -> field -> field) -> car -> car -> nat -> car -> field ->
+  field
+
+val conv_sc_noncons :
+  ops -> (field -> field -> field) -> car -> car -> nat -> car -> field ->
+  field
+
+val gradient_norm :
+  ops -> (field -> field -> field) -> car -> car -> nat -> car -> bool ->
+  field -> field
+
+val polynomial :
+  ops -> (field -> field) -> (field -> field -> field) -> (field -> field ->
+  field -> field) -> car -> car -> car -> car -> car -> field -> field
+
+val general_nonlinear :
+  ops -> (field -> field) -> (field -> field -> field) -> (field -> field ->
+  field -> field) -> car -> car -> nat -> car -> car -> car -> car -> bool ->
+  field -> field
+
+val inv_lap_one : ops -> car -> car -> nat -> field
+
+val vorticity_conv :
+  ops -> (field -> field -> field) -> car -> car -> nat -> car -> field ->
+  field
+
+val inv_lap_zero : ops -> car -> car -> nat -> field
+
+val leray : ops -> car -> car -> nat -> field list -> field list
+
+val cross :
+  ops -> (field -> field -> field) -> field list -> field list -> field list
+
+val curl : ops -> car -> car -> field list -> field list
+
+val projected_conv :
+  ops -> (field -> field -> field) -> car -> car -> nat -> field list ->
+  field list
+
+val cahn_hilliard :
+  ops -> (field -> field -> field -> field) -> car -> car -> nat -> car ->
+  field -> field
+
+val gray_scott :
+  ops -> (field -> field) -> (field -> field -> field -> field) -> car -> car
+  -> car -> field -> field -> field list
+
 val aff : z -> z -> z -> z
 
 val affx : z -> z -> z -> z
@@ -623,5 +735,11 @@ val unqcs : car list -> q list
 val run_conv : q list -> q list
 
 val run_c04 : z -> q list -> q list
+
+val idx_eqb : z list -> z list -> bool
+
+val lookup : (z list * car) list -> z list -> car
+
+val run_term : q list -> q list
 
 val run : z -> q list -> q list
